@@ -12,6 +12,11 @@ B. Replay (pattern B): for every entry point the fixture is permanently converte
    has all loadings multiplied by 1/3 and 7.  The analysis is run; the returned numbers and the arrays
    that reached the numeric core are recorded as decimal floats; spec/InvarianceTrace decides, per
    result key, equal / changed by exactly the unit monomial / scaled by the loading factor.
+C. Use - convert - use on ONE object (entry points that go through loading_at / pressure_at: alpha_s, isosteric_enthalpy,
+   enthalpy_sorption_whittaker): the entry point is run on the fixtures (filling their interpolator caches), the same
+   objects are permanently converted (pressure, loading, material, temperature, combined), the entry point is run again;
+   the second result is judged against the first by the same clauses, and against what freshly converted copies give
+   (nothing may differ, whatever the class of the representation - so a recorded finding cannot mask a stale cache).
 """
 import math
 import random
@@ -24,7 +29,7 @@ from .. import tlc
 from ..encode import dec_enc
 from ..units_common import Atoms
 from ..iso_common import labels_of
-from ..invar_common import ENTRY, fixture, to_rep, clone, json_roundtrip, run_entry
+from ..invar_common import ENTRY, fixture, to_rep, convert_in_place, clone, json_roundtrip, run_entry
 
 PID = "C15"
 NAN = [0, 99]
@@ -60,6 +65,7 @@ SCEN = {
     "initial_enthalpy_comp": [("HKUST-1",)],
 }
 THOROUGH_ONLY = {"psd_dft": [("MCM-41",)]}
+HISTORY_ANALYSES = ("alpha_s", "isosteric_enthalpy", "enthalpy_sorption_whittaker")
 SCALES = ((1, 3), (7, 1))
 
 
@@ -120,7 +126,7 @@ def parallel_oracle(module, records, chunk, jobs=4):
 
 
 class Variant:
-    __slots__ = ("entry", "an", "names", "role", "kind", "to", "variant", "scale", "sS0", "sR0", "sS", "sR", "outcome", "res", "exc", "msg", "base", "mag", "atoms", "stored")
+    __slots__ = ("entry", "an", "names", "role", "kind", "to", "variant", "scale", "sS0", "sR0", "sS", "sR", "outcome", "res", "exc", "msg", "base", "mag", "atoms", "stored", "history", "chg")
 
 
 def build_isos(v):
@@ -129,7 +135,9 @@ def build_isos(v):
     for i, n in enumerate(v.names):
         tgt, start, is_changed = (v.sS, v.sS0, v.role in ("S", "A")) if i == 0 else (v.sR, v.sR0, v.role in ("R", "A"))
         f = fixture(n)
-        if v.variant == "rep" and is_changed:
+        if getattr(v, "history", None) and is_changed:
+            f = to_rep(f, dict(labels_of(f), **v.chg))
+        elif v.variant == "rep" and is_changed:
             own = labels_of(f)
             chg = {k: tgt[k] for k in tgt if tgt[k] != start[k]}
             f = to_rep(f, dict(own, **chg))
@@ -144,9 +152,30 @@ def build_isos(v):
 
 
 def execute(v):
-    """run the entry point on the scenario; False when the scenario cannot be constructed (conversion refused)"""
+    """run the entry point on the scenario; False when the scenario cannot be constructed (conversion refused).
+    History scenarios (v.history = "use-convert-use"): the entry point is first run on the fixtures as stored (which fills
+    their interpolator caches), THE SAME objects are then permanently converted, and the entry point is run again;
+    v.base becomes the first result.  v.history = "fresh-reference": v.base is what freshly converted copies give."""
+    history = getattr(v, "history", None)
     try:
-        isos = build_isos(v)
+        if history:
+            isos = [fixture(n) for n in v.names]
+            out, first, msg = run_entry(v.entry, isos)
+            if out != "ok":
+                return False
+            for i, f in enumerate(isos):
+                is_changed = v.role in ("S", "A") if i == 0 else v.role in ("R", "A")
+                if is_changed:
+                    convert_in_place(f, dict(labels_of(f), **v.chg))
+            if history == "use-convert-use":
+                v.base = first
+            else:
+                out, fresh, msg = run_entry(v.entry, build_isos(v))
+                if out != "ok":      # freshly converted copies are refused as well: nothing to compare the history with
+                    return False
+                v.base = fresh
+        else:
+            isos = build_isos(v)
     except MachineryError:
         raise
     except Exception:
@@ -226,6 +255,11 @@ def signature(v, ans, vd):
     sig = {"site": v.an, "plan_class": cls, "observed": "+".join(coarse)}
     if v.outcome == "raised":
         sig["exception"] = v.res
+    if getattr(v, "history", None) == "fresh-reference":
+        # the same objects, converted after a first use, against freshly converted copies: whatever the class of the
+        # representation, a difference is a dependence on the history of the object
+        sig.update(plan_class="same_representation", observed="depends_on_history:" + sig["observed"], changed=f"{v.role}:{v.kind}")
+        return sig, clauses
     if cls == "ok":     # not a class the access-plan model predicts: say what was changed
         bad_core = [b for b in vd["bad"] if b["key"].startswith("core.")]
         has_core = v.outcome == "ok" and any(k.startswith("core.") for k in v.base)
@@ -246,6 +280,7 @@ def replay(path):
     v = Variant()
     v.entry, v.an, v.names = det["entry"], ENTRY[det["entry"]][0], tuple(det["fixtures"])
     v.role, v.kind, v.variant, v.to = det["role"], det["kind"], det["variant"], det.get("to")
+    v.history, v.chg = det.get("history"), det.get("change")
     v.scale = tuple(det["scale"]) if det.get("scale") else None
     v.sS0, v.sR0, v.sS, v.sR = det["start_sample_labels"], det["start_other_labels"], det["sample_labels"], det["other_labels"]
     isos0 = [fixture(n) for n in v.names]
@@ -344,10 +379,31 @@ def main(tier, seed):
             for sc in (SCALES[:1] if entry == "psd_dft" else SCALES):
                 for role in (["S", "R"] if an == "alpha_s" else ["A"] if two else ["S"]):
                     plan.append((role, "scale", f"{sc[0]}/{sc[1]}", "scale", sc, dict(sS0), dict(sR0)))
-            for role, kind, to, variant, sc, sS, sR in plan:
+            # use - convert - use on ONE object, for the entry points that go through loading_at / pressure_at (cached interpolators)
+            hist = []
+            if an in HISTORY_ANALYSES:
+                hc = [c for c in changes if c[0] == "pressure"]
+                rng.shuffle(hc)
+                pick = hc if thorough else ([c for c in hc if c[1] != "absolute"][:1] + [c for c in hc if c[1] == "absolute"][:2])
+                for k in ("loading", "material"):
+                    kc = [c for c in changes if c[0] == k]
+                    rng.shuffle(kc)
+                    pick += kc if thorough else kc[:2]
+                pick += [c for c in changes if c[0] in ("temperature", "product")][:(8 if thorough else 3)]
+                for role in roles:
+                    for kind, to, f in pick:
+                        sS = dict(sS0, **f) if role in ("S", "A") else dict(sS0)
+                        sR = dict(sR0, **f) if role in ("R", "A") else dict(sR0)
+                        if sS == sS0 and sR == sR0:
+                            continue
+                        hist.append((role, "history:" + kind, to, "rep", None, sS, sR, "use-convert-use", f))
+                        hist.append((role, "history-vs-fresh:" + kind, to, "json", None, sS, sR, "fresh-reference", f))
+            for role, kind, to, variant, sc, sS, sR, history, chg in [p + (None, None) for p in plan] + hist:
                 v = Variant()
                 v.entry, v.an, v.names, v.role, v.kind, v.to, v.variant, v.scale = entry, an, names, role, kind, to, variant, sc
-                v.sS0, v.sR0, v.sS, v.sR, v.base, v.atoms = sS0, sR0, sS, sR, base, atoms
+                v.sS0, v.sR0, v.sS, v.sR, v.base, v.atoms, v.history, v.chg = sS0, sR0, sS, sR, base, atoms, history, chg
+                if history == "fresh-reference":      # both runs are in the target representation: nothing may differ
+                    v.sS0, v.sR0 = sS, sR
                 if not execute(v):      # the conversion itself was refused (a constant is unavailable): nothing to analyse
                     run.add("variants_not_constructible")
                     continue
@@ -406,7 +462,7 @@ def main(tier, seed):
                              "results conform within tolerance (divergence too small to observe there, or the code no longer matches the transcription)")
             continue
         first = vd["bad"][0]
-        detail = {"entry": v.entry, "fixtures": list(v.names), "role": v.role, "kind": v.kind, "variant": v.variant, "to": v.to, "sample_labels": v.sS, "other_labels": v.sR, "start_sample_labels": v.sS0, "start_other_labels": v.sR0,
+        detail = {"entry": v.entry, "fixtures": list(v.names), "role": v.role, "kind": v.kind, "variant": v.variant, "to": v.to, "history": getattr(v, "history", None), "change": getattr(v, "chg", None), "sample_labels": v.sS, "other_labels": v.sR, "start_sample_labels": v.sS0, "start_other_labels": v.sR0,
                   "scale": v.scale, "failing": [{"key": b["key"], "clause": b["c"], "index": b["i"]} for b in vd["bad"][:12]], "message": v.msg}
         if v.outcome == "ok" and first["key"] in v.base:
             ob = next(o for o in q["obs"] if o["key"] == first["key"])
@@ -424,7 +480,8 @@ def main(tier, seed):
     run.set(exhaustive=False, entries=len(scen),
             rule="entry points (" + str(len(scen)) + " incl. option variants; 15 analyses) x fixtures (measured N2/77 K, n-butane, CO2 calorimetry isotherms; synthetic BET/Langmuir/Toth) x "
                  "{sample, reference/further isotherm, all} x {every pressure representation; per loading / material basis the requested unit and "
-                 + ("every other unit" if thorough else "2 seeded others") + "; degC; full-product samples; JSON round trip; loadings x 1/3, x 7}; "
+                 + ("every other unit" if thorough else "2 seeded others") + "; degC; full-product samples; JSON round trip; loadings x 1/3, x 7; use - convert - use histories on one object "
+                 "(alpha_s, isosteric_enthalpy, Whittaker) judged against the first use and against freshly converted copies}; "
                  "per run every result key and every array handed to the numeric core (up to " + str(limit) + " elements per array incl. the worst one); "
                  "non-trivial = representation or scale actually changed; distinct = distinct (entry, fixture, role, target representation / factor)")
     run.assume("adsorbate/material property methods define psat, M, densities (C20); every fixture material is given density 1.737 g/cm3 and molar mass 419.3 g/mol")
